@@ -134,6 +134,12 @@ func (m *MatchField) MarshalBinary() (data []byte, err error) {
 	data[n] = m.Length
 	n += 1
 
+	if m.ExperimenterID != 0 {
+		// experimenter-class fields carry the experimenter id before the value (Len() counts it)
+		binary.BigEndian.PutUint32(data[n:], m.ExperimenterID)
+		n += 4
+	}
+
 	b, err := m.Value.MarshalBinary()
 	copy(data[n:], b)
 	n += len(b)
